@@ -21,8 +21,8 @@ import hashlib
 
 import z3
 
-from .sym import (Sym, SymInt, SymBool, SymStr, SymFloat, SymList, Unsupported, SymbolicEscape,
-                  EngineSignal, Infeasible, has_sym, is_sym, _i, _b, _s, _f, land, lor, lnot, RNE)
+from .sym import (Sym, SymInt, SymBool, SymStr, SymFloat, SymList, SymDict, Unsupported, SymbolicEscape,
+                  EngineSignal, Infeasible, PathEnd, has_sym, is_sym, _i, _b, _s, _f, land, lor, lnot, RNE)
 from . import models
 
 INTERPRETED_PREFIXES = ('qbee', 'qvm', 'spec')
@@ -208,8 +208,12 @@ class LoopSpec:
     variables modified by the body (default: inferred from the value at loop entry).
     """
 
-    def __init__(self, inv, havoc=None, decreases=None, bounded=None):
+    def __init__(self, inv, havoc=None, decreases=None, bounded=None, assume_only=(), before=None, after=None):
         self.inv = inv
+        self.assume_only = set(assume_only)   # names of facts that are assumed (instances of preconditions /
+                                              # defining equations of ghost functions), never proved
+        self.before = before                  # before(L) -> snapshot, run at the start of the arbitrary iteration
+        self.after = after                    # after(L, snapshot) -> [(name, cond)] step obligations
         self.havoc = havoc or {}
         self.decreases = decreases
         self.bounded = bounded
@@ -773,6 +777,8 @@ class Interp:
 
     def iterate(self, it):
         """materialise a concrete iteration order for an iterable, or return None if symbolic"""
+        if isinstance(it, SymDict):
+            it = it.keys()
         if isinstance(it, SymList):
             if isinstance(it.length, int):
                 return [it.get(i) for i in range(it.length)]
@@ -848,7 +854,10 @@ class Interp:
         # 1. establish
         L0 = LoopState(frame, 0, it, p, self)
         for name, cond in spec.inv(L0):
-            p.prove(f'{qn}#inv:{ordn}:{name}:init', cond)
+            if name in spec.assume_only:
+                p.assume(cond)
+            else:
+                p.prove(f'{qn}#inv:{ordn}:{name}:init', cond)
         # 2. fork: arbitrary iteration (inductive step) or exit
         step = p.branch(p.bool(f'{qn}#loop{ordn}#step', register=False))
         # 3. havoc modified variables
@@ -876,16 +885,23 @@ class Interp:
                 if not self.truth(c):
                     raise Infeasible()
             dec0 = spec.decreases(Lk) if spec.decreases else None
+            snap = spec.before(Lk) if spec.before else None
             sig = self.exec_block(s.body, frame)
             if sig is not None and sig[0] in ('return', 'break'):
                 return None if sig[0] == 'break' else sig
             Ln = LoopState(frame, (k + 1) if is_for else None, it, p, self)
             for name, cond in spec.inv(Ln):
-                p.prove(f'{qn}#inv:{ordn}:{name}:preserved', cond)
+                if name in spec.assume_only:
+                    p.assume(cond)
+                else:
+                    p.prove(f'{qn}#inv:{ordn}:{name}:preserved', cond)
+            if spec.after:
+                for name, cond in spec.after(Ln, snap):
+                    p.prove(f'{qn}#step:{ordn}:{name}', cond)
             if dec0 is not None:
                 dec1 = spec.decreases(Ln)
                 p.prove(f'{qn}#decreases:{ordn}', land(dec1 < dec0, dec0 >= 0) if not is_for else True)
-            raise Infeasible()   # inductive step checked; this path ends here
+            raise PathEnd()   # inductive step checked; this path ends here
         else:
             if is_for:
                 p.assume(k == n)
@@ -1241,6 +1257,10 @@ class Interp:
     def getattr(self, obj, name):
         if isinstance(obj, (Sym, SymList, models.SymRange)):
             return models.sym_getattr(self, obj, name)
+        if isinstance(obj, SymDict):
+            if name in ('items', 'values', 'keys'):
+                return getattr(obj, name)
+            raise Unsupported(f'dict.{name} on a symbolic dict')
         # properties / descriptors defined in interpreted modules are interpreted
         tp = type(obj)
         if isinstance(obj, type):
